@@ -22,6 +22,11 @@ while args:
     elif a == "--json": JSON_OUT = args.pop(0)
 
 failures = []
+GROUP = ["general"]
+class _F(list):
+    def append(self, x):
+        list.append(self, f"[{GROUP[0]}] {x}")
+failures = _F()
 
 def src(name):
     p = os.path.join(REPO, "src", name)
@@ -101,6 +106,7 @@ def lean_str_list(xs):
     return "[" + ", ".join('"' + x + '"' for x in xs) + "]"
 
 # ----------------------------------------------------------------------------- constants
+GROUP[0] = "deflate"
 pc = strip_comments(src("preflate_constants.rs"))
 C = {}
 for n in ["LITERAL_COUNT", "LEN_CODE_COUNT", "DIST_CODE_COUNT", "CODETREE_CODE_COUNT", "MIN_MATCH", "MAX_MATCH"]:
@@ -120,6 +126,7 @@ qd = need(r"fn quantize_distance\(dist: u32\) -> usize \{\s*DIST_CODE_TABLE\[if 
 QD = [num(qd.group(i)) for i in range(1, 6)] if qd else [0] * 5
 need(r"fn quantize_length\(len: u32\) -> usize \{\s*LENGTH_CODE_TABLE\[len as usize - MIN_MATCH as usize\]", pc, "quantize_length shape")
 
+GROUP[0] = "deflate"
 he = strip_comments(src("huffman_encoding.rs"))
 tree_code = enum_variants(he, "TreeCodeType")
 adj = {}
@@ -137,9 +144,11 @@ for nm, pat in [("hlit", r"let hlit = bit_reader\.get\((\d+)\)\? as usize \+ (\d
 m = need(r"= bit_reader\.get\((\d+)\)\? as u8;\s*\}\s*let code_length_huff_code_tree", he, "code length width")
 CLBITS = num(m.group(1)) if m else 0
 
+GROUP[0] = "deflate"
 pt = strip_comments(src("preflate_token.rs"))
 block_type = enum_variants(pt, "BlockType")
 
+GROUP[0] = "deflate"
 dr = strip_comments(src("deflate_reader.rs"))
 modes = re.findall(r"\n\s*(\d+) => \{\s*blk = PreflateTokenBlock::new\(BlockType::(\w+)\)", dr)
 if len(modes) != 3:
@@ -147,6 +156,7 @@ if len(modes) != 3:
 m = need(r"\(len \^ ilen\) != (0x[0-9a-fA-F]+)", dr, "stored LEN/NLEN check")
 NLEN_MASK = num(m.group(1)) if m else 0
 
+GROUP[0] = "codec"
 sc = strip_comments(src("statistical_codec.rs"))
 mis = enum_variants(sc, "CodecMisprediction")
 corr = enum_variants(sc, "CodecCorrection")
@@ -154,6 +164,7 @@ cc = strip_comments(src("cabac_codec.rs"))
 m = need(r"default_encoding: \[CTX; (\d+)\],\s*default_encoding_nbits: \[CTX; (\d+)\],\s*correction: \[\[CTX; (\d+)\]; CodecCorrection::MAX as usize\],\s*correction_bits: \[\[CTX; (\d+)\]; CodecCorrection::MAX as usize\]", cc, "codec context array sizes")
 CTXN = [num(m.group(i)) for i in range(1, 5)] if m else [0] * 4
 
+GROUP[0] = "params"
 pe = strip_comments(src("preflate_parameter_estimator.rs"))
 FILE_VERSION = const_num(pe, "FILE_VERSION")
 hash_ids = {}
@@ -225,6 +236,7 @@ else:
 m = need(r"max_token_count: (\d+),\s*zlib_compatible: true,\s*max_dist_3_matches: 0,\s*matching_type: MatchingType::Greedy,\s*max_chain: 0,\s*min_len: 0,\s*hash_algorithm: HashAlgorithm::None", pe, "no-dictionary parameter block")
 NODICT_TOKENS = num(m.group(1)) if m else 0
 
+GROUP[0] = "container"
 pcn = strip_comments(src("preflate_container.rs"))
 WRAPPER_VERSION = const_num(pcn, "COMPRESSED_WRAPPER_VERSION_1")
 TAGS = [const_num(pcn, n) for n in ["LITERAL_CHUNK", "DEFLATE_STREAM", "PNG_COMPRESSED"]]
@@ -233,6 +245,7 @@ STAGING = num(m.group(1)) if m else 0
 m = need(r"\(value & (0x[0-9A-Fa-f]+)\) as u8;\s*value >>= (\d+);\s*if value != 0 \{\s*byte \|= (0x[0-9A-Fa-f]+);", pcn, "write_varint shape")
 VARINT = [num(m.group(i)) for i in range(1, 4)] if m else [0, 0, 0]
 
+GROUP[0] = "scan"
 sd = strip_comments(src("scan_deflate.rs"))
 MIN_BLOCKSIZE = const_num(sd, "MIN_BLOCKSIZE")
 ZIP_SIG = const_num(sd, "ZIP_LOCAL_FILE_HEADER_SIGNATURE")
@@ -251,6 +264,7 @@ ZIP_METHOD = num(m.group(1)) if m else 0
 m = need(r"if index >= (\d+)[^{]*\{\s*let real_start = index - (\d+);", sd, "IDAT look-back")
 IDAT_BACK = (num(m.group(1)), num(m.group(2))) if m else (0, 0)
 
+GROUP[0] = "hash"
 ha = strip_comments(src("hash_algorithm.rs"))
 MINIZ_MASK = const_num(ha, "MINIZ_LEVEL1_HASH_SIZE_MASK")
 CRC_TABLE = const_array(ha, "CRC32C_TABLE")
@@ -264,6 +278,7 @@ deltas = sorted(set(num(x) for x in re.findall(r"const DELTA: usize = (0x[0-9a-f
 limits = sorted(set(num(x) for x in re.findall(r"pos as i32 - self\.total_shift >= (0x[0-9a-fA-F]+)", hc)))
 shifts = sorted(set(int(x) for x in re.findall(r"total_shift: (-?\d+),", hc)))
 
+GROUP[0] = "levels"
 cfg = strip_comments(src("preflate_parse_config.rs"))
 def parse_levels(name):
     m = need(r"const " + name + r": \[PreflateParserConfig; (\d+)\] = \[(.*?)\n\];", cfg, name)
@@ -281,6 +296,7 @@ def parse_levels(name):
 FAST_LEVELS = parse_levels("ZLIB_PREFLATE_PARSER_SETTINGS")
 SLOW_LEVELS = parse_levels("SLOW_PREFLATE_PARSER_SETTINGS")
 
+GROUP[0] = "effects"
 # ----------------------------------------------------------------------------- effect inventory (C14)
 EFFECT_PATTERNS = [
     ("static_mut", r"\bstatic\s+mut\b"),
